@@ -451,6 +451,16 @@ func execHybrid(c hyCase, x *verifkit.Ctx, c15 bool) (fail *verifkit.Failure) {
 			}
 			seq++
 			var inherited int64
+			if pm := model[st.K]; st.TTL == 0 && pm != nil && pm.deadline != 0 {
+				// whether a Set without TTL inherits a deadline depends on whether the key is resident at that
+				// moment: an eviction or demotion still in flight (the workers run asynchronously) would make the
+				// observation below stale by the time the Set runs - on a busy machine that produced a false
+				// stale/expired (the entry had been demoted in between, the Set created a fresh entry without
+				// deadline, the model expected the inherited one). Let the pipeline come to rest first.
+				if f := settle(); f != nil {
+					return f
+				}
+			}
 			if e := memGet(st.K); e != nil {
 				if d := e.expire.Load(); d > now() {
 					inherited = d // an in-place update without TTL keeps the (unexpired) deadline of the resident entry
